@@ -37,7 +37,7 @@ type ApplyOverride struct {
 
 type AppSpec struct {
 	Version     uint64                `json:"version"`
-	OfferScript map[int]string        `json:"offer_script"` // offer call number -> verdict
+	OfferScript map[int]string        `json:"offer_script"`            // offer call number -> verdict
 	OfferBySnap map[int]string        `json:"offer_by_snap,omitempty"` // catalog index -> verdict whenever that snapshot is offered (OfferScript wins)
 	AcceptAny   bool                  `json:"accept_any_offer"`
 	ApplyScript map[int]ApplyOverride `json:"apply_script"` // apply call number -> override
@@ -388,7 +388,7 @@ func genScenario(r *rand.Rand, verifSeed, sub int64, stream string, idx int) *Sc
 			s.Peers = append(s.Peers, PeerSpec{Default: "honest", Adverts: [][]int{{main}}})
 		}
 		fresh := len(s.Peers)
-		s.Peers = append(s.Peers, PeerSpec{Default: "honest", Adverts: [][]int{{}}})         // has advertised nothing so far
+		s.Peers = append(s.Peers, PeerSpec{Default: "honest", Adverts: [][]int{{}}})           // has advertised nothing so far
 		s.Peers = append(s.Peers, PeerSpec{Default: "honest", Adverts: [][]int{{secondSnap}}}) // only has the lesser snapshot
 		np = len(s.Peers)
 		if s.App.OfferBySnap == nil {
